@@ -193,8 +193,10 @@ class IrToWasmCompiler:
             if isinstance(part, bytes):
                 data.extend(part)
             elif isinstance(part, tuple) and part[0] is ir.ptr:
-                # Address of a label, (ptr, name)
+                # Address of a label, (ptr, name) or (ptr, name, offset)
                 addr = self.get_label_address(part[1])
+                if len(part) > 2:
+                    addr = (addr + part[2]) & 0xFFFFFFFF
                 data.extend(addr.to_bytes(4, "little"))
             else:  # pragma: no cover
                 raise NotImplementedError(str(part))
